@@ -50,7 +50,11 @@ def generate(rng, tier, n):
     # ones the generator produced before relations existed
     nrel = n // 5
     cases = e2e.gen_cases(rng, n - nrel, per_problem=3, allow=('tdm',))
-    return cases + e2e.gen_relation_cases(rng.fork('relations'), nrel)
+    # a quarter of the relation cases: ONE vehicle with two shifts that are both used, relations for both shifts (same vehicleId,
+    # different shiftIndex: the pinning rule is about the vehicle AND the shift, Relations.is_rel_tour); own forked stream
+    ntwo = max(6, nrel // 4)
+    return cases + e2e.gen_relation_cases(rng.fork('relations'), nrel - ntwo) \
+        + e2e.gen_two_shift_relation_cases(rng.fork('relations-two-shifts'), ntwo)
 
 
 def _sol(impl):
